@@ -82,6 +82,9 @@ Calls ==
 \* DKG: Start with every seed class, per protocol and role
 \cup {C("DKGStart", p, role, sd, IF (role = "dealer" \/ p = "jf") /\ sd \in {"nil", "empty", "31"} THEN "reject" ELSE "any-or-reject") :
         p \in {"fvss", "qual", "jf"}, role \in {"dealer", "other"}, sd \in {"nil", "empty", "31", "32", "256", "huge"}}
+\* DKG: floods of well-formed control messages, one for EVERY participant index (the dealer's and the receiver's own included)
+\cup {C("DKGFlood", p, role, k, "any-or-reject") : p \in {"qual", "jf"}, role \in {"dealer", "other"},
+        k \in {"answers-all", "complaints-all", "answers-then-complaints", "complaints-then-answers", "answers-all-before-vector"}}
 \* DKG constructors; handlers with arbitrary messages are enumerated separately (DKGMessages below)
 \cup {C("NewDKG", p, n, t, "any-or-reject") : p \in {"fvss", "qual", "jf"}, n \in Ints, t \in Ints}
 \cup {C("NewDKGIndices", p, me, dl, OkIf(ValidInt(me) /\ (p = "jf" \/ ValidInt(dl)))) : p \in {"fvss", "qual", "jf"}, me \in Ints, dl \in Ints}
